@@ -132,6 +132,11 @@ class C07(Prop):
             pt = rng.choice([0, 1, 3600, 86400, 86401, 200000])
             for b in storelib.BACKENDS:
                 out.append(("day-scale-stream", {"backend": b, "pt": pt, "stream": s, "other": []}))
+        # heartbeats as a server receives them: the timestamp is an ISO-8601 text, and the clients sit in different UTC
+        # offsets, so that the instants increase while their texts do not
+        for _, c in list(out):
+            if rng.random() < 0.15:
+                c["iso"] = [rng.choice([-600, -120, 0, 0, 180, 330]) for _ in c["stream"]]
         return out
 
     def impl(self, case):
@@ -192,6 +197,11 @@ class C07(Prop):
                     except Exception:
                         pass
                 heartbeat = mk_event(hb)
+                if case.get("iso"):
+                    from aw_core.models import Event
+
+                    heartbeat = Event(timestamp=storelib.us_to_dt(hb[1], case["iso"][n_hb]).isoformat(),
+                                      duration=heartbeat.duration, data=heartbeat.data)
                 last = bucket.get(limit=1)
                 merged = heartbeat_merge(last[0], heartbeat, case["pt"]) if last else None
                 if merged is not None:
